@@ -29,7 +29,7 @@ func init() {
 		Run:         run,
 		Replay:      func(stdjson.RawMessage) (bool, string) { return false, "re-run ./check C19 quick" },
 		RaceLog:     true,
-		QuickBudget: 80 * time.Second,
+		QuickBudget: 150 * time.Second,
 	})
 }
 
